@@ -876,7 +876,11 @@ func (e *Engine) runPath(fn *ssa.Function, name string, it workItem, solvers *So
 				}()
 			}
 			if m != nil {
-				ex.violation("panic", "panic", "uncaught Go panic: "+res.Msg, m)
+				lbl := res.Msg
+				if len(lbl) > 60 {
+					lbl = lbl[:60]
+				}
+				ex.violation("panic", "panic: "+lbl, "uncaught Go panic: "+res.Msg, m)
 			} else {
 				res.Outcome = "unsupported"
 				res.Msg = "panic path without model: " + res.Msg
